@@ -414,6 +414,8 @@ impl<W: Write + io::Seek> ZipWriter<W> {
             self.stats.hasher = Hasher::new();
 
             self.files.push(file);
+            // a new entry is open: closing it has to patch its header (raw copies set this again)
+            self.writing_raw = false;
         }
         if let Some(keys) = options.encrypt_with {
             let mut zipwriter = crate::zipcrypto::ZipCryptoWriter { writer: core::mem::replace(&mut self.inner, GenericZipWriter::Closed).unwrap(), buffer: vec![], keys };
@@ -463,7 +465,9 @@ impl<W: Write + io::Seek> ZipWriter<W> {
         }
 
         self.writing_to_file = false;
-        self.writing_raw = false;
+        // the entry is closed now: its header is final and must not be patched again by a later
+        // close (e.g. a second `finish()` after the first one failed while writing the directory)
+        self.writing_raw = true;
         Ok(())
     }
 
